@@ -647,6 +647,7 @@ theorem records_kept (s : State) (op : Op) (a : Addr) (h : (get s.recs a).isSome
   | deposit x id amt => exact keep _ (fun s' hs => deposit_recs hs)
   | vote x id => exact keep _ (fun s' hs => vote_recs hs)
   | block dt => simp only [step]; rw [endBlock_recs]; exact h
+  | setPeriods dp vp => exact h
   | migrate f t sg =>
     simp only [step]
     cases hm : migrate cfg s f t sg with
